@@ -90,6 +90,20 @@ var retryOff = false
 // knownObls: obligations listed as known findings are expected to fail; they get a short time limit
 var knownObls = map[string]bool{}
 
+// knownParts: for a known finding that lists footprint parts, the parts expected to fail (others get the full limit)
+var knownParts = map[string]map[string]bool{}
+
+// expectedToFail: the instance is (part of) a recorded finding
+func expectedToFail(o *Obl) bool {
+	if !knownObls[o.Name] {
+		return false
+	}
+	if ps, ok := knownParts[o.Name]; ok && len(ps) > 0 {
+		return ps[o.Part]
+	}
+	return true
+}
+
 type SolveStats struct {
 	Confirmed int
 	Disagree  int
@@ -151,6 +165,20 @@ func isolate(script string, seq int) string {
 	return sb.String()
 }
 
+// dropObligation removes the push/check-sat/pop block of obligation seq from a path script
+func dropObligation(script string, seq int) string {
+	marker := fmt.Sprintf("(push 1)\n(echo \"OBL %d ", seq)
+	i := strings.Index(script, marker)
+	if i < 0 {
+		return script
+	}
+	j := strings.Index(script[i:], "(pop 1)")
+	if j < 0 {
+		return script
+	}
+	return script[:i] + script[i+j+len("(pop 1)"):]
+}
+
 func solvePath(ps *PathScript, workDir string, perQueryMs int, onlySolver string, stats *SolveStats) {
 	base := filepath.Join(workDir, fmt.Sprintf("%s.p%d", sanitize(ps.Func), ps.ID))
 	nobl := 0
@@ -169,7 +197,15 @@ func solvePath(ps *PathScript, workDir string, perQueryMs int, onlySolver string
 	first := solvers[0]
 	if onlySolver == "" || strings.HasPrefix(first.Name, onlySolver) {
 		file := base + "." + first.Name + ".smt2"
-		if err := os.WriteFile(file, []byte(first.Pre+ps.Script), 0o644); err == nil {
+		// instances of recorded findings are expected to fail: they are left out of the whole-path run (where each
+		// would sit out the full limit) and go straight to the isolated pass with a short limit
+		script := ps.Script
+		for _, o := range ps.Obls {
+			if !o.Trivial && expectedToFail(o) {
+				script = dropObligation(script, o.Seq)
+			}
+		}
+		if err := os.WriteFile(file, []byte(first.Pre+script), 0o644); err == nil {
 			p1 := perQueryMs
 			if p1 > 10000 {
 				p1 = 10000 // the first pass is the fast one; what it leaves is retried in isolation with the full limit
@@ -240,7 +276,7 @@ func solvePath(ps *PathScript, workDir string, perQueryMs int, onlySolver string
 		// an obligation nobody decides in the time limit gets one more round with three times the limit before it is
 		// reported (timeouts under machine load must not turn into alarms); known findings and covers are exempt
 		rounds := []int{perQueryMs, 3 * perQueryMs}
-		if knownObls[o.Name] || o.Kind == "cover" || retryOff || ps.Slow {
+		if expectedToFail(o) || o.Kind == "cover" || retryOff || ps.Slow {
 			rounds = rounds[:1]
 		}
 		for _, roundMs := range rounds {
@@ -262,7 +298,7 @@ func solvePath(ps *PathScript, workDir string, perQueryMs int, onlySolver string
 				}
 				cands = append(cands, sv)
 			}
-			if o.Kind == "cover" && len(cands) > 1 {
+			if (o.Kind == "cover" || expectedToFail(o)) && len(cands) > 1 {
 				cands = cands[:1]
 			}
 			ch := make(chan ans, len(cands))
@@ -278,8 +314,8 @@ func solvePath(ps *PathScript, workDir string, perQueryMs int, onlySolver string
 					if o.Kind == "cover" {
 						ms = 2000
 					}
-					if knownObls[o.Name] && ms > 3000 {
-						ms = 3000
+					if expectedToFail(o) && ms > 2000 {
+						ms = 2000
 					}
 					res, secs, err := runScriptCtx(ctx, sv, file, ms, 1)
 					r, ok := res[o.Seq]
